@@ -44,6 +44,9 @@ def wiring_unit(prop, through_simulation):
                     check("data_cache_kind", type(st.memory) is (WriteBackMemorySystem if dk == "wb" else WriteThroughMemorySystem))
                     check_cache("data_cache_", st.memory, d, st.performance_metrics)
                     check("data_cache_backing_is_the_flat_memory", type(st.memory.memory) is Memory and st.memory.memory.address_range.start == 2 ** 14)
+                    # ... with the same parameters as the uncached data memory (C18's instantiation): wraps modulo 2**32
+                    check("data_cache_backing_has_the_parameters_of_the_uncached_memory", st.memory.memory.address_overflow is True and st.memory.memory.address_length == 32
+                          and st.memory.memory.address_range.stop == 2 ** 32 and st.memory.memory.memory_file_values_width == 8)
                 if prop == "C10":
                     # a cache configured "lru" / "plru" really replaces by that policy: each cache gets the policy of ITS options
                     check("data_cache_replacement_policy", all_of([type(cs.replacement_strategy) is (LRU if dp == "lru" else PLRU) and cs.replacement_strategy.associativity == 4 for cs in st.memory.cache.sets]))
